@@ -4,7 +4,7 @@
 From Coq Require Import Reals ZArith List.
 From Interval Require Import Xreal.
 From RD Require Import Base.Expr Gen.ZigTables Proofs.ZigTables.
-Require RD.GenBase.ZigTables RD.Gen.Consts RD.GenBase.Consts.
+Require RD.GenBase.ZigTables RD.Gen.Consts RD.GenBase.Consts RD.Gen.ZigNormTail.
 Import ListNotations.
 Open Scope Z_scope.
 
@@ -52,6 +52,18 @@ Theorem C06_fingerprints :
   Gen.Consts.fp_exponential__Exp1_Distribution_f64_sample__zero_case = GenBase.Consts.fp_exponential__Exp1_Distribution_f64_sample__zero_case.
 Proof. repeat split; reflexivity. Qed.
 
+(* base strip of the normal: |(X_1 F_1 + int_r^40 exp(-x^2/2) dx) / (X_0 F_1) - 1| <= 1e-8 (the integral beyond 40 is below 1e-340);
+   Gen/ZigNormTail.v is regenerated from the table literals and proved with Coq-Interval's `integral` tactic on every change *)
+(* statement (see Gen/ZigNormTail.v):  Rabs ((zn_x1 * zn_f1 + RInt (fun x => exp (-(x*x)/2)) zn_r 40) / (zn_x0 * zn_f1) - 1) <= 1 / 10^8 *)
+Theorem C06_norm_base_area : ltac:(let t := type of Gen.ZigNormTail.norm_base_area in exact t).
+Proof. exact Gen.ZigNormTail.norm_base_area. Qed.
+(* the constants of that lemma are the table entries *)
+Theorem C06_norm_base_consts :
+  Gen.ZigNormTail.zn_dy = [ZIG_NORM_R; nth 0 ZIG_NORM_X (0,0); nth 1 ZIG_NORM_X (0,0); nth 1 ZIG_NORM_F (0,0)].
+Proof. reflexivity. Qed.
+
+Print Assumptions C06_norm_base_area.
+Print Assumptions C06_norm_base_consts.
 Print Assumptions C06_norm_strict_mono.
 Print Assumptions C06_exp_strict_mono.
 Print Assumptions C06_norm_f_is_pdf.
